@@ -12,7 +12,7 @@ import (
 func init() { register("C02", propC02) }
 
 func propC02(c *Ctx) {
-	c.Explanation = "Liveness under loss is a property of timed executions and is not decided. Decided (path shapes, for all inputs and schedules): (W1) produce => notify: a segment enqueued by HandlePacket asserts newSegmentWaker; data queued by Write is processed under TryLock or asserts sndWaker; the FIN queued by Shutdown asserts sndCloseWaker; a zero->non-zero receive-window transition in readLocked/SetSockOpt notifies the protocol goroutine, whose handler sends the window-reopening ACK exactly when the window last announced (after scaling) was zero; (W2) every waker field of endpoint/sender/keepalive is registered with a handler in protocolMainLoop and every notify flag is tested in the notification handler or the listen loop; the handshake registers resend, notification and new-segment wakers; (W3) the retransmission timer is (re)armed with the current RTO whenever sndUna != sndNxt (data or FIN outstanding), the SYN resend timer exists before the first SYN and is reset on each resend; (W4) FIN last, nothing after it: Write queues data only while sndClosed is false, in the sndBufMu critical section; Shutdown sets sndClosed in the critical section that pushes the zero-length segment at the BACK of the send queue; sendData turns only the last, zero-length segment into FIN|ACK; the receive side closes only on a consumed in-order FIN (one sequence number, ACKed at once, readers told) and ignores everything afterwards; (W5) the main loop runs until rcv.closed && snd.closed && sndUna == sndNxtList. (W7) logicalLen = payload + SYN + FIN (shared); a zero-length segment is consumed only exactly at rcvNxt (W4). NOT decided: that retransmission eventually succeeds, timing, window probing by the peer."
+	c.Explanation = "Liveness under loss is a property of timed executions and is not decided. Decided (path shapes, for all inputs and schedules): (W1) produce => notify: a segment enqueued by HandlePacket asserts newSegmentWaker; data queued by Write is processed under TryLock or asserts sndWaker; the FIN queued by Shutdown asserts sndCloseWaker; a zero->non-zero receive-window transition in readLocked/SetSockOpt notifies the protocol goroutine, whose handler sends the window-reopening ACK exactly when the window last announced (after scaling) was zero; (W2) every waker field of endpoint/sender/keepalive is registered with a handler in protocolMainLoop and every notify flag is tested in the notification handler or the listen loop; the handshake registers resend, notification and new-segment wakers; (W3) the retransmission timer is (re)armed with the current RTO whenever sndUna != sndNxt (data or FIN outstanding), the SYN resend timer exists before the first SYN and is reset on each resend; (W4) FIN last, nothing after it: Write queues data only while sndClosed is false, in the sndBufMu critical section; Shutdown sets sndClosed in the critical section that pushes the zero-length segment at the BACK of the send queue; sendData turns only the last, zero-length segment into FIN|ACK; the receive side closes only on a consumed in-order FIN (one sequence number, ACKed at once, readers told) and ignores everything afterwards; (W5) the main loop runs until rcv.closed && snd.closed && sndUna == sndNxtList. (W7) logicalLen = payload + SYN + FIN (shared); a zero-length segment is consumed only exactly at rcvNxt (W4). (W8) the lazy retransmission timer's typestate (shared with C05/L6): an expiry ends disabled, so the next enable re-arms. (W9) teardown happens exactly once: the worker if one runs (Close sets workerCleanup and wakes it; completeWorkerLocked cleans up when asked), else Close; workerRunning is set before the goroutine starts; protocol goroutines are started only by connect, Listen and startAcceptedLoop. NOT decided: that retransmission eventually succeeds, timing, window probing by the peer."
 	ep := "(*tcp.endpoint)."
 	w1 := c.Rule("W1", "K1/K2/K5 site tables", "produce => notify", 12)
 	if fn := c.Fn(w1, ep+"HandlePacket"); fn != nil {
@@ -252,6 +252,45 @@ func propC02(c *Ctx) {
 			c.Check(atoms[a], w5, FuncName(fn)+"/exit-tests:"+a, c.P.Pos(fn.Pos()), "loop condition reads "+a, "main loop no longer tests "+a+" before exiting")
 		}
 	}
+	// W9: who cleans up. Close hands the cleanup to the worker exactly when one
+	// is running (and wakes it), otherwise does it itself; the worker records
+	// its end and performs the cleanup it was asked for; the running flag is
+	// set before the goroutine exists.
+	w9 := c.Rule("W9", "K7 exact-guard site tables + K2 order", "endpoint teardown is done exactly once: by the worker if one runs, else by Close", 10)
+	if fn := c.Fn(w9, ep+"Close"); fn != nil {
+		c.CheckSitesPresent(w9, fn, []SiteSpec{
+			{Kind: "call", Target: ep + "Shutdown", Args: []string{"$0", "3"}, Guards: []string{}, Exact: true, N: 1, Why: "Close first shuts down both directions (queues the FIN)"},
+			{Kind: "call", Target: ep + "cleanupLocked", Args: []string{"$0"}, Guards: []string{"!$0.workerRunning"}, Exact: true, N: 1, Why: "no worker: Close cleans up itself"},
+			{Kind: "store", Target: "tcp.endpoint.workerCleanup", Args: []string{"$0", "true"}, Guards: []string{"$0.workerRunning"}, Exact: true, N: 1, Why: "a worker runs: it is asked to clean up when it exits"},
+			{Kind: "call", Target: ep + "notifyProtocolGoroutine", Args: []string{"$0", "4"}, Guards: []string{"$0.workerRunning"}, Exact: true, N: 1, Why: "... and woken with notifyClose"},
+		})
+	}
+	if fn := c.Fn(w9, ep+"completeWorkerLocked"); fn != nil {
+		c.CheckSites(w9, fn, []SiteSpec{
+			{Kind: "store", Target: "tcp.endpoint.workerRunning", Args: []string{"$0", "false"}, Guards: []string{}, Exact: true, N: 1, Why: "the worker records its end"},
+			{Kind: "call", Target: ep + "cleanupLocked", Args: []string{"$0"}, Guards: []string{"$0.workerCleanup"}, Exact: true, N: 1, Why: "... and cleans up exactly when Close asked it to"},
+		})
+	}
+	for _, name := range []string{ep + "connect", ep + "Listen", ep + "startAcceptedLoop"} {
+		if fn := c.Fn(w9, name); fn != nil {
+			c.Ordered(w9, fn, []string{"workerRunning = true", "go worker"}, []func(Site) bool{
+				func(s Site) bool {
+					return s.Kind == "store" && s.Target == "tcp.endpoint.workerRunning" && len(s.Args) == 2 && s.Args[1] == "true"
+				},
+				func(s Site) bool {
+					return s.Kind == "go" && (s.Target == ep+"protocolMainLoop" || s.Target == ep+"protocolListenLoop")
+				},
+			})
+		}
+	}
+	c.OnlyIn(w9, "store to tcp.endpoint.workerRunning", c.FieldStores("tcp.endpoint", "workerRunning"), ep+"connect", ep+"Listen", ep+"startAcceptedLoop", ep+"completeWorkerLocked")
+	c.OnlyIn(w9, "store to tcp.endpoint.workerCleanup", c.FieldStores("tcp.endpoint", "workerCleanup"), ep+"Close", ep+"cleanupLocked")
+	goMain := c.CallSites(func(s string) bool { return s == ep+"protocolMainLoop" || s == ep+"protocolListenLoop" })
+	c.OnlyIn(w9, "start of a protocol goroutine", goMain, ep+"connect", ep+"Listen", ep+"startAcceptedLoop")
+
+	w8 := c.Rule("W8", "typestate: K3 confinement + K7 exact-guard site tables (shared with C05/L6)", "the lazy retransmission timer re-arms after every expiry: its state word goes enabled -> disabled on expiry, orphaned only on disable", 14)
+	timerTypestateRule(c, w8)
+
 	w7 := c.Rule("W7", "K9 path table (shared with C01/R6, C03/H8)", "a segment's sequence-space length = payload + SYN + FIN: a FIN is acknowledged and consumed as exactly one sequence number", 5)
 	logicalLenRule(c, w7)
 
